@@ -18,12 +18,14 @@ from pysym.wire import to_wire, from_wire
 FNAME = 'repodata.json'
 
 
-def build(eng, ns, A=2, B=1, wrong_kinds=True, meta_kinds=True, spellings=False):
+def build(eng, ns, A=2, B=1, wrong_kinds=True, meta_kinds=True, spellings=False, num_kinds=False):
     t = T(eng, ns=ns)
     arts = []
 
     def metadata(nm):
-        d = {'build_number': t.int(nm + '.i'), 'depends': ['python']}      # JSON object; differs between artifacts iff the ints differ
+        # JSON object; differs between artifacts iff the numbers differ as JSON values (1 and true are == in Python, not in JSON)
+        bn = t.any(nm + '.bn', [('int', t.int(nm + '.i')), ('bool', t.bool(nm + '.ib'))]) if num_kinds else t.int(nm + '.i')
+        d = {'build_number': bn, 'depends': ['python']}
         if not meta_kinds or (meta_kinds == 'conda' and not nm.startswith('packages.conda')):
             return d
         # "any JSON metadata per artifact": also bare booleans, numbers, strings, null, arrays
